@@ -21,6 +21,9 @@ Alphabet == {
   SubCall("insert", GSrc(<<TPath(FALSE, <<"Vec">>, <<Id("T")>>)>>), Ext("G2", <<Id("T")>>), "nonident", "ok"),
   SubCall("insert", GSrc(<<Id("T")>>), Ext("G2", <<[k |-> "tup", elems |-> <<Id("T"), Id("T")>>]>>), "ok", "nonpath"),
   SubCall("insert_if_not_exists", GSrc(<<Id("T")>>), TPath(FALSE, <<"crate", "local", "G6">>, <<Id("T")>>), "ok", "ok"),
+  \* malformed targets for a source that declares no generics
+  SubCall("insert", GSrc(<<>>), Ext("G8", <<[k |-> "tup", elems |-> <<Id("T"), Id("T")>>]>>), "ok", "nonpath"),
+  SubCall("insert", GSrc(<<>>), Ext("G9", <<Id("T")>>), "ok", "paren"),
   SubCall("insert_if_not_exists", GSrc(<<TPath(FALSE, <<"Vec">>, <<Id("A")>>)>>), Ext("G7", <<Id("A")>>), "nonident", "ok"),
   ExtendCall(<<Elem(PB, Ext("B2", <<>>), "ok", "ok"), Elem(GSrc(<<Id("T"), Id("U")>>), Ext("G5", <<Id("T"), Id("U")>>), "ok", "ok")>>),
   ExtendCall(<<Elem(PB, Ext("B3", <<>>), "ok", "ok"), Elem(GSrc(<<Id("T")>>), Ext("X", <<>>), "paren", "ok")>>) }
